@@ -195,7 +195,8 @@ Record good (sp : spec) (sv : server) (name : N) (skip : bool) (v suite : N) (s 
   g_tems : t_ems (s_ticket s) = s_ems s;
   g_ver : skip = false -> s_verified s = true /\ mem name (s_certnames s) = true;
   g_12 : v <> V13 -> mem (s_suite s) (sp_suites sp) = true /\ mem (s_suite s) (sv_suites sv) = true /\ s_ems s = has_ems sp;
-  g_13 : v = V13 -> hash_len (s_suite s) = hash_len suite /\ hash_len suite <> 0
+  g_13 : v = V13 -> hash_len (s_suite s) = hash_len suite /\ hash_len suite <> 0;
+  g_ok : s_bad s = false
 }.
 
 Lemma negotiate_mem sv sp v : negotiate sv sp = Some v -> mem v (sp_vers sp) = true.
@@ -215,7 +216,7 @@ Lemma load13 sp sv sn ad skip suite s ca now omit tlen e :
   now <= s_notafter s -> now <= s_useby s ->
   load_session ca (mkConn sp sn ad sv now omit skip suite tlen) e = mkLoaded ca (Some (ViaPsk, s)).
 Proof.
-  intros G L Mv Ms T1 T2. destruct G as [gv gk gtv gts gte gver g12 g13]. destruct (g13 eq_refl) as [Hh Hn].
+  intros G L Mv Ms T1 T2. destruct G as [gv gk gtv gts gte gver g12 g13 gbad]. destruct (g13 eq_refl) as [Hh Hn].
   unfold load_session. rewrite L. cbn [c_spec c_now c_skipverify]. rewrite gv, Mv. cbn [negb].
   replace (s_notafter s <? now) with false by (symmetry; apply N.ltb_ge; exact T1).
   rewrite (ver_cond _ _ _ gver). rewrite N.eqb_refl. cbn [negb].
@@ -251,7 +252,7 @@ Proof.
       rewrite W1, Hp. cbn [negb andb]. rewrite andb_false_r.
       rewrite (load13 sp sv sn ad skip suite s ca now omit tlen _ G L Mv Ms T1 T2). cbn [l_sess l_cache].
       rewrite (g_vers _ _ _ _ _ _ _ G). cbn. reflexivity. }
-  destruct G as [gv gk gtv gts gte gver g12 g13]. destruct (g13 eq_refl) as [Hh Hn].
+  destruct G as [gv gk gtv gts gte gver g12 g13 gbad]. destruct (g13 eq_refl) as [Hh Hn].
   subst c2. unfold step. rewrite B. cbn [c_spec c_srv c_suite c_now]. rewrite Ng. rewrite N.eqb_refl.
   destruct (selected_group sv sp) as [g|] eqn:SG; [|congruence].
   assert (HR : needs_hrr sv sp && negb (sp_go sp) && true = false).
@@ -260,7 +261,7 @@ Proof.
   replace (hash_len suite =? 0) with false by (symmetry; apply N.eqb_neq; exact Hn).
   unfold opens, fresh. rewrite Hm, gk, gtv, gts, Hh, !N.eqb_refl.
   replace (now <=? t_created (s_ticket s) + LIFETIME) with true by (symmetry; apply N.leb_le; exact T3).
-  cbn. split; reflexivity.
+  cbn. rewrite gbad. cbn. split; reflexivity.
 Qed.
 
 Lemma load12 sp sv sn ad skip suite s ca now omit tlen :
@@ -268,7 +269,7 @@ Lemma load12 sp sv sn ad skip suite s ca now omit tlen :
   mem V12 (sp_vers sp) = true -> now <= s_notafter s ->
   load_session ca (mkConn sp sn ad sv now omit skip suite tlen) (has_ems sp) = mkLoaded ca (Some (ViaTicket, s)).
 Proof.
-  intros G L Mv T1. destruct G as [gv gk gtv gts gte gver g12 g13].
+  intros G L Mv T1. destruct G as [gv gk gtv gts gte gver g12 g13 gbad].
   destruct g12 as [M1 [M2 E]]; [discriminate|].
   unfold load_session. rewrite L. cbn [c_spec c_now c_skipverify]. rewrite gv, Mv. cbn [negb].
   replace (s_notafter s <? now) with false by (symmetry; apply N.ltb_ge; exact T1).
@@ -300,12 +301,12 @@ Proof.
       rewrite (g_vers _ _ _ _ _ _ _ G). rewrite N.eqb_refl.
       destruct (has XPsk (sp_exts sp)) eqn:P; [rewrite (W3 eq_refl)|]; cbn; eexists; reflexivity. }
   destruct B as [p B].
-  destruct G as [gv gk gtv gts gte gver g12 g13]. destruct g12 as [M1 [M2 E]]; [discriminate|].
+  destruct G as [gv gk gtv gts gte gver g12 g13 gbad]. destruct g12 as [M1 [M2 E]]; [discriminate|].
   subst c2. unfold step. rewrite B. cbn [c_spec c_srv c_suite c_now]. rewrite Ng.
   change (V12 =? V13) with false. cbv beta iota.
   unfold opens, fresh. rewrite gk, gtv, gts, gte, !N.eqb_refl, M1, M2, E.
   replace (now <=? t_created (s_ticket s) + LIFETIME) with true by (symmetry; apply N.leb_le; exact T3).
-  cbn [negb]. rewrite andb_negb_l, andb_negb_r. cbn. split; reflexivity.
+  cbn [negb]. rewrite andb_negb_l, andb_negb_r. cbn. rewrite gbad. cbn. split; reflexivity.
 Qed.
 
 Lemma load_checks ca c e k s : l_sess (load_session ca c e) = Some (k, s) ->
@@ -365,7 +366,7 @@ Proof.
       end;
     (eexists; split; [apply lookup_put_same|]); (split; [|cbn; try discriminate; intros _; unfold stored; cbn; auto]);
     bool_hyps;
-    (constructor; unfold stored; cbn [s_vers s_ticket t_key t_vers t_suite t_ems s_suite s_ems s_verified s_certnames];
+    (constructor; unfold stored; cbn [s_vers s_ticket t_key t_vers t_suite t_ems s_suite s_ems s_verified s_certnames s_bad];
      try reflexivity; try congruence;
      [ intros Sk; try (eapply CK; [reflexivity|exact Sk]);
        try (rewrite Sk; split; [reflexivity|]; unfold verify_ok in *; rewrite Sk in *; cbn in *; bool_hyps; assumption)
@@ -379,7 +380,7 @@ Proof.
       end;
     (eexists; split; [apply lookup_put_same|]); (split; [|cbn; try discriminate; intros _; unfold stored; cbn; auto]);
     bool_hyps;
-    (constructor; unfold stored; cbn [s_vers s_ticket t_key t_vers t_suite t_ems s_suite s_ems s_verified s_certnames];
+    (constructor; unfold stored; cbn [s_vers s_ticket t_key t_vers t_suite t_ems s_suite s_ems s_verified s_certnames s_bad];
      try reflexivity; try congruence;
      [ intros Sk; try (eapply CK; [reflexivity|exact Sk]);
        try (rewrite Sk; split; [reflexivity|]; unfold verify_ok in *; rewrite Sk in *; cbn in *; bool_hyps; assumption)
